@@ -34,6 +34,7 @@ var Metas = map[string]Meta{
 	"C06": {Category: "exploration", Rule: "one run = one gzip/zlib Writer history (header fields, level, partition, Reset reuse) executed by fastgo and by the stdlib Writer; every cleanly closed container is read by the opposite implementation; non-trivial = at least one byte written; distinct = distinct schedule signature"},
 	"C07": {Category: "fault_enumeration", CrossLevel: true, Rule: "for each sampled well-formed container: every truncation point and every single-bit flip (containers up to 420 bytes; sampled positions above), plus 60 sampled double flips / byte substitutions; one evaluation = one damaged container read through the drawn source and Read schedule; non-trivial = every damaged run; distinct = distinct schedule signature"},
 	"C08": {Category: "exploration", CrossLevel: true, Rule: "one run = 1..6 gzip members (fastgo or stdlib Writers, synthesised streams, empty members), optional trailing data, read in default mode or with Multistream(false)+Reset; non-trivial = more than one member; distinct = distinct schedule signature"},
+	"C11": {Category: "exploration", Rule: "one run = producer task (Writer history with Flush points, stdlib or fastgo encoder) and consumer task (fastgo Reader) on a gated pipe under a seeded scheduler; the driver releases one flush point at a time and evaluates at every quiescence whether all data before that point was returned; afterwards the source stalls, fails or delivers unrelated bytes; non-trivial = at least two flush points; distinct = distinct schedule signature (incl. task switches)"},
 	"C13": {Category: "exploration", CrossLevel: true, Rule: "one run = 1..3 earlier streams (read partially, to EOF or into an error), Reset, next input (valid, back-references before its start, malformed), compared with a fresh Reader; non-trivial = at least one earlier stream; distinct = distinct schedule signature"},
 	"C15": {Category: "fault_enumeration", Rule: "for each sampled valid stream/container the source fails after k bytes for every k in 0..len (thorough, and quick when len <= 512; otherwise first/last 8 and a stratified sample), error alone or with the last bytes; one evaluation = one (stream, k) run; non-trivial = the injected error was actually returned by the source; distinct = distinct schedule signature"},
 	"C18": {Category: "exploration", CrossLevel: true, Rule: "one run = one level-independent input (valid, truncated or malformed; flate/gzip/zlib) read with the same source/Read schedule in worker processes forced to each runnable level; the parent compares (output bytes, error kind) across levels; non-trivial = input longer than the assembly loop's 24-byte slop; distinct = distinct schedule signature"},
